@@ -291,4 +291,11 @@ def prove_functions(spec_modules, keys, tier="quick", procs=16, lemma_groups=())
         if sp.trusted:
             rep["trusted"].append(f"assumed contract (body not verified): {k} {sp.note}")
     rep["trusted"].append("builtin contract table entries used: " + ", ".join(sorted(builtins)))
+    # what a proof assumes about its inputs: the requires of each entry point and the assumed behaviour of callbacks
+    rep["entry_preconditions"] = {k: list(REG.fns[k].requires) for k in keys if REG.fns[k].requires and not REG.fns[k].trusted}
+    rep["callback_assumptions"] = {n: (("pure deterministic function" if d["pure"] else "arbitrary result") + (f"; every result satisfies: {d['post']}" if d.get("post") else ""))
+                                   for n, d in REG.funs.items()}
+    rep["lemma_axioms"] = ["pow2: pow2(0)=1, pow2(k)=2*pow2(k-1), pow2(k)>=1 (bridge: 1<<k == 2**k for k>=0)",
+                           "float_inf >= 1e308 (A2)", "recursive spec functions: unfolding axioms (definitions)",
+                           "bv64 lemmas bridged to Int for 0 <= i < 2^62 (A9)"]
     return rep
